@@ -9,7 +9,8 @@ defined: per field its name, what `Field.type` holds, and its default if any.
 `datify` follows the code: a callable `_datify` hook is not modelled; an annotation that
 is not a dataclass (`Any`, builtins, `list[C]`, `dict[str, C]`, a string left by
 `from __future__ import annotations`) makes `fields()` raise and the value is returned
-as is; `Optional[C]` / `C | None` resolves to `C` (fix commit on branch fix/small);
+as is; a union (`Optional[C]`, `C | None`, `A | B | None`) tries its dataclass members in order and keeps
+the first one that ACCEPTS the value (`isinstance` check; fix commit 6cb25be);
 for a dataclass `C` every exception inside `cls(**{f: datify(type f, d[f]) for f in d})`
 (unknown key, missing required field, `d` not iterable, …) returns `d` unchanged.
 -/
@@ -32,7 +33,7 @@ deriving Repr, Inhabited
 inductive Ann where
   | any                 -- `Any`, `int`, `str`, `list`, `dict`, … : not a dataclass
   | dom (c : Nat)       -- the dataclass itself
-  | opt (c : Nat)       -- `Optional[C]` or `C | None`
+  | opt (cs : List Nat) -- `Optional[C]`, `C | None`, and unions of several dataclasses `A | B | None`, `Optional[Union[A, B]]`
   | listOf (c : Nat)    -- `list[C]`
   | dictOf (c : Nat)    -- `dict[str, C]`
   | strAnn (c : Nat)    -- the string `"C"`
@@ -65,11 +66,14 @@ end
 
 /-! ### datify -/
 
-/-- the dataclass an annotation resolves to, if any -/
-def classOf (S : Schema) : Ann → Option (Nat × Class)
-  | .dom c => (S[c]?).map (fun k => (c, k))
-  | .opt c => (S[c]?).map (fun k => (c, k))
-  | _ => none
+/-- the dataclasses `datify` tries for an annotation, in order: the class itself, or the dataclass members of a
+union in the order `typing.get_args` lists them; none for every other annotation -/
+def candidates (S : Schema) : Ann → List (Nat × Class)
+  | .dom c => match S[c]? with
+    | some k => [(c, k)]
+    | none => []
+  | .opt cs => cs.filterMap fun c => (S[c]?).map fun k => (c, k)
+  | _ => []
 
 def Class.field? (k : Class) (name : Key) : Option Field := k.fields.find? (fun f => f.name == name)
 
@@ -98,20 +102,20 @@ def construct (c : Nat) (k : Class) (ks : List Key) (vs : List Tree) (orig : Tre
     | none => orig
   else orig
 
+/-- the first attempt that produced an instance of the class it was tried for (`isinstance(dom, arg)`); else `orig` -/
+def pick (orig : Tree) : List (Nat × Tree) → Tree
+  | [] => orig
+  | (c, .obj c' ks vs) :: rest => if c' = c then .obj c' ks vs else pick orig rest
+  | _ :: rest => pick orig rest
+
 mutual
 def datify (S : Schema) : Ann → Tree → Tree
   | a, .dict ks vs =>
-    match classOf S a with
-    | some (c, k) => construct c k ks (datifyL S k ks vs) (.dict ks vs)
-    | none => .dict ks vs
+    pick (.dict ks vs) ((candidates S a).map fun ck => (ck.1, construct ck.1 ck.2 ks (datifyL S ck.2 ks vs) (.dict ks vs)))
   | a, .list [] =>            -- `for f in []`: no keyword arguments at all
-    match classOf S a with
-    | some (c, k) => construct c k [] [] (.list [])
-    | none => .list []
+    pick (.list []) ((candidates S a).map fun ck => (ck.1, construct ck.1 ck.2 [] [] (.list [])))
   | a, .str [] =>             -- `for f in ""`
-    match classOf S a with
-    | some (c, k) => construct c k [] [] (.str [])
-    | none => .str []
+    pick (.str []) ((candidates S a).map fun ck => (ck.1, construct ck.1 ck.2 [] [] (.str [])))
   | _, t => t                 -- not iterable / `fieldtypes[f]` or `d[f]` raises: returned unchanged
 /-- `datify(fieldtypes[f], d[f])` for the keys of `d` in order -/
 def datifyL (S : Schema) (k : Class) : List Key → List Tree → List Tree
